@@ -229,19 +229,7 @@ pub fn timer_died_early(v: &View, vd: &mut Verdict, prop: &str) {
         let EvKind::TimerReg { actor, timer, kind, .. } = &e.kind else { continue };
         let (a, id) = (*actor, *timer);
         let Some(end) = v.hist.iter().find(|x| x.stamp > e.stamp && matches!(&x.kind, EvKind::TaskEnd { tag: TaskTag::Timer { actor: ta, timer: tt }, .. } if *ta == a && *tt == id)) else { continue };
-        let mut limit = v.alive_until(a);
-        if v.rt[a].strategy != RStrat::NonRestartable {
-            for o in v.client_ops().filter(|o| o.actor == Some(a) && o.what == OpWhat::Restart) {
-                limit = limit.min(o.begin);
-            }
-            for x in v.hist {
-                if let EvKind::CtxOp { actor: ca, op: CtxOpKind::Restart, .. } = &x.kind {
-                    if *ca == a {
-                        limit = limit.min(x.stamp);
-                    }
-                }
-            }
-        }
+        let limit = v.timer_valid_until(a, e.stamp);
         if end.stamp >= limit {
             continue;
         }
@@ -273,17 +261,7 @@ fn time_of(v: &View, stamp: u64) -> u64 {
 /// lifecycle callback.
 fn went_silent(v: &View, vd: &mut Verdict, id: usize, t: &T) {
     let a = t.actor;
-    let mut limit = v.alive_until(a).min(v.phase(Phase::Teardown));
-    for o in v.client_ops().filter(|o| o.actor == Some(a) && o.what == OpWhat::Restart && o.begin > t.reg_stamp) {
-        limit = limit.min(o.begin);
-    }
-    for x in v.hist {
-        if let EvKind::CtxOp { actor: ca, op: CtxOpKind::Restart, .. } = &x.kind {
-            if *ca == a && x.stamp > t.reg_stamp {
-                limit = limit.min(x.stamp);
-            }
-        }
-    }
+    let limit = v.timer_valid_until(a, t.reg_stamp).min(v.phase(Phase::Teardown));
     if limit == u64::MAX || limit <= t.reg_stamp {
         return;
     }
